@@ -235,7 +235,7 @@ fn c24_tie_no_flip_flop() {
     let h = any_handle();
     let inst = ISpec { st: InstanceStateKind::Alive, ..any_ispec(h) };
     let mk = |owner: [u8; 16]| {
-        let mut r = reader_sized(neutral_qos(true), 1, 1, 2, 1);
+        let mut r = reader(neutral_qos(true));
         r.matched_publication_list.push(publication(a, s));
         r.matched_publication_list.push(publication(b, s));
         r.instances.push(mk_inst(&inst));
@@ -278,7 +278,7 @@ fn c24_owner_unmatched__known() {
     kani::assume(!eq16(&gone, &b));
     let h = any_handle();
     let inst = ISpec { st: InstanceStateKind::Alive, ..any_ispec(h) };
-    let mut r = reader_sized(neutral_qos(true), 1, 1, 1, 1);
+    let mut r = reader(neutral_qos(true));
     r.matched_publication_list.push(publication(b, kani::any()));
     r.instances.push(mk_inst(&inst));
     r.instance_ownership.push(ownership(h, gone, any_time()));
